@@ -738,7 +738,8 @@ class CSemantics:
         """Process a character literal"""
         # Get value from string:
         char_value, kind = utils.charval(value)
-        typ = self.get_type(kind)
+        # An integer character constant has type int:
+        typ = self.int_type
         return expressions.CharLiteral(char_value, typ, location)
 
     def on_ternop(self, lhs, op, mid, rhs, location):
